@@ -34,7 +34,16 @@ fn main() {
         std::process::exit(2);
     }
     // keep panics quiet: they are part of the canonical output
-    std::panic::set_hook(Box::new(|_| {}));
+    if std::env::var("KVERIF_PANIC_LOC").is_ok() {
+        // diagnosis only: where did the code under test panic
+        std::panic::set_hook(Box::new(|info| {
+            if let Some(l) = info.location() {
+                eprintln!("panic-location {}:{}", l.file(), l.line());
+            }
+        }));
+    } else {
+        std::panic::set_hook(Box::new(|_| {}));
+    }
     let prop = match props::lookup(&args[2]) {
         Some(p) => p,
         None => {
